@@ -74,6 +74,7 @@ class ConcreteCtx(Explorer):
         Explorer.__init__(self)
         self.frames.append(Frame(self._new_solver()))
         self.fuel_left = 10 ** 7
+        self.eval_left = 10 ** 9
         self.eq_cache = {}
 
 
